@@ -105,4 +105,24 @@ CHECKS["C05"] = {
     "parts": [{"bin": "C05_lifecycle"}],
 }
 
+CHECKS["C04"] = {
+    "registered": True,
+    "engine": "pmc-os",
+    "technique": "stateless preemption-bounded exhaustive schedule enumeration of async_rw_mutex request words with two starting threads on the real header-only code; grant log checked against request order",
+    "level_text": "Every schedule within the deviation bound of every request word over {read, readwrite} up to length 3 (4 thorough), with every assignment of the accesses to two starting threads or 'dropped unstarted', with and without destroying the mutex right after the requests and with copied read wrappers, is executed on the real code; at every grant the log is checked for overlap, request order, the version seen; every started access must be granted exactly once (stuck otherwise) and the wrapped value must die exactly once, after the last wrapper.",
+    "level_note": "Sequentially consistent interleavings only; 2 starting threads; choice points at all atomics of async_rw_mutex.hpp, the shared_ptr control blocks and start_detached (F-site); the non-void specialisation.",
+    "rule": "pmc-os: request words x roles x options (data choices) x all schedules within the deviation bound",
+    "parts": [{"bin": "C04_async_rw_mutex"}],
+}
+
+CHECKS["C03"] = {
+    "registered": True,
+    "engine": "pmc-os",
+    "technique": "stateless preemption-bounded exhaustive schedule enumeration of sender pipelines with instrumented leaves (value/error/stopped, inline or deferred), a manual scheduler, recording receivers and payload/allocation ledgers on the real header-only adaptors",
+    "level_text": "Every schedule within the deviation bound of every pipeline of the curated set (then, let_value, let_error, when_all, when_all_vector, split, split_tuple, ensure_started, continues_on, schedule, transfer_just, start_detached, sync_wait, drop_value, drop_operation_state, require_started, unpack, unique_any_sender and depth-2 combinations), for every completion channel at every leaf and inline or deferred completion, with one or two consumers on different threads, is executed on the real code; each receiver must get exactly one signal on the denoted channel with the denoted payload, never after its operation state was destroyed; payload objects and heap blocks must be released exactly once (quarantined, poisoned blocks detect use after free).",
+    "level_note": "Sequentially consistent interleavings only; terms of depth 1-2 from a curated list rather than a generated closure; bulk is covered by C11 and the thread pool scheduler by C10; choice points at all atomics of the adaptor headers, any_sender and reference counts (F-site) plus harness points at leaf registration / firing / after start.",
+    "rule": "pmc-os: pipelines x leaf channels x timing x consumer placement (data choices) x all schedules within the deviation bound",
+    "parts": [{"bin": "C03_senders"}],
+}
+
 PENDING = {}
